@@ -298,8 +298,11 @@ class Path(object):
 
 class Explorer(object):
     def __init__(self, modules, inline=(), max_paths=20000, max_visits=2, max_depth=4,
-                 mod_sets=None, call_hook=None, pure=(), record_loads=False):
+                 mod_sets=None, call_hook=None, pure=(), record_loads=False, once=()):
         self.mods = modules
+        # functions of which a path may contain one call only: a second call ends the path (kind 'yield'), like coming
+        # back to the head of the enclosing loop does ("fetch the next token" inside a helper that skips comments)
+        self.once = set(once)
         self.funcs = {}
         for m in modules:
             for n, f in m.funcs.items():
@@ -858,6 +861,9 @@ class Explorer(object):
                 indirect = None
         if name is None:
             name = 'indirect:' + (field_of(cv[1]) if cv and cv[0] == 'ld' and field_of(cv[1]) else render(cv) if cv else '?')
+        if name in self.once and any(e.kind == 'call' and e.name == name for e in st.events):
+            self._end(out, st, 'yield', last_ins=ins)
+            return 'forked'
         if name in IDENTITY and len(args) > IDENTITY[name]:
             st.env[ins.res] = args[IDENTITY[name]]
             return None
@@ -888,13 +894,14 @@ class Explorer(object):
             cst.env = env
             cst.visits = {}
             cst.trace = []
-            paths = self.explore(callee, env=None, state=cst, depth=depth + 1)
+            paths = self.explore(callee, env=None, state=cst, depth=depth + 1, call_results=call_results)
             conts = []
             dead = 0
             for p in paths:
                 if p.end not in ('ret',):
-                    if p.end == 'unreachable':
+                    if p.end in ('unreachable', 'yield'):
                         # the callee ends the process here (abort(), a failed assertion): so does the caller's path
+                        # (or: the path was ended at a second call of a once-only function)
                         out.append(p)
                         dead += 1
                     continue
